@@ -859,7 +859,8 @@ def arg_stream(rnd, quick):
 
 # --------------------------------------------------------------------------------------------------
 
-HRPS = ["bcrt", "tb", "bc", "x", "tapro0t", "a" * 20]
+# (every character class tap's prefix validation lets through: the six between 'Z' and 'a' / '@' have no lower-case twin)
+HRPS = ["bcrt", "tb", "bc", "x", "tapro0t", "a" * 20, "my_net", "a@b", "[x]", "^", "\\", "`{|}~", "-.+*", "0_9"]
 # prefixes BIP173 does not allow (or an encoder must not emit): tap takes them as they are
 BAD_HRPS = ["TB", "Bcrt", "", "a b", "t\x7fb", "z" * 84, " tb"]
 FINDING_HRP = "F-C06-hrp-unchecked"
